@@ -55,11 +55,13 @@ def run(chk):
                 "abort or wrong acceptance is a violation. Non-trivial = a call that was rejected or that followed a rejection; distinct = "
                 "distinct lines.")
     libs = _compose.load(_compose.KERNEL_LIBS, chk)
-    _compose.obligations(chk, "C10", libs, own_mods=["PrimitivModel.Props.C10"], own_drivers=_graph.DRIVERS)
+    _compose.obligations(chk, "C10", libs, own_mods=["PrimitivModel.Props.C10"], own_drivers=_graph.DRIVERS + ["shape", "shapespec"])
     _graph.run_family(chk, {"C10"}, tier="quick")
     retry_probe(chk, 25 if chk.tier == "quick" else 400)
     for lib in libs:
         _compose.run_lib(lib, chk, "C10")
+    from props import C09 as _c09
+    _c09.run_batch_rules(chk)
     for f in _compose.load(["_funcs"], chk):
         if hasattr(f, "run_malformed"):
             f.run_malformed(chk)
